@@ -426,6 +426,16 @@ def pred_c20(prog, tr):
     return bad
 
 
+def pred_c18(prog, tr):
+    """a rejected Provide or Decorate leaves its Info struct untouched (the executor hands the struct over already
+    filled and reports `info` on a rejected operation only when it was written to)"""
+    bad = []
+    for i, (op, o) in enumerate(zip(prog["ops"], ops_of(tr))):
+        if op["op"] in ("provide", "decorate") and isinstance(o, dict) and o.get("v") != "ok" and o.get("info") is not None:
+            bad.append("op %d: the rejected %s wrote to its Info struct" % (i, op["op"]))
+    return bad
+
+
 def pred_none(prog, tr):
     return []
 
@@ -433,7 +443,7 @@ def pred_none(prog, tr):
 PRED = {
     "C01": pred_c03, "C02": pred_c02, "C03": pred_c03, "C04": pred_none, "C05": pred_c05, "C06": pred_c14, "C07": pred_c07,
     "C08": pred_none, "C09": pred_none, "C10": pred_none, "C11": pred_none, "C12": pred_c02, "C13": pred_c13,
-    "C14": pred_c14, "C15": pred_none, "C16": pred_none, "C17": pred_c17, "C18": pred_none, "C19": pred_none, "C20": pred_c20,
+    "C14": pred_c14, "C15": pred_none, "C16": pred_none, "C17": pred_c17, "C18": pred_c18, "C19": pred_none, "C20": pred_c20,
 }
 
 
